@@ -144,31 +144,8 @@ static Matrix make_matrix(vh::Trace&, const Sys& s, vh::Rng& rng, int max_entrie
     m.data->set_row(b, elems);
     m.rows.push_back(row);
   }
-  // log: bins, rows (bin-major) and columns (voxel-major; TLC checks that both describe the same matrix)
-  std::vector<std::vector<int>> bl;
-  for (const Bin& b : s.bins) bl.push_back({ b.segment_num(), b.view_num(), b.axial_pos_num(), b.tangential_pos_num(), b.timing_pos_num() });
-  std::string rows = "[", cols = "[";
-  for (size_t i = 0; i < m.rows.size(); ++i) {
-    if (i) rows += ',';
-    rows += '[';
-    for (size_t j = 0; j < m.rows[i].size(); ++j) { if (j) rows += ','; rows += '[' + std::to_string(m.rows[i][j].first) + ',' + std::to_string(m.rows[i][j].second) + ']'; }
-    rows += ']';
-  }
-  rows += ']';
-  for (int v = 1; v <= nv; ++v) {
-    if (v > 1) cols += ',';
-    cols += '[';
-    bool first = true;
-    for (size_t i = 0; i < m.rows.size(); ++i)
-      for (auto& e : m.rows[i])
-        if (e.first == v) { if (!first) cols += ','; first = false; cols += '[' + std::to_string(i + 1) + ',' + std::to_string(e.second) + ']'; }
-    cols += ']';
-  }
-  cols += ']';
-  const ProjDataInfo& pdi = *s.t.proj_data_info;
-  m.sysjson = (vh::Json("System").num("id", m.id).boolean("tof", s.tof).num("nv", nv).num("numViews", pdi.get_num_views())
-              .num("minView", pdi.get_min_view_num()).num("minAx0", pdi.get_min_axial_pos_num(0)).num("maxAx0", pdi.get_max_axial_pos_num(0))
-              .num("maxSegData", pdi.get_max_segment_num()).arr2("bins", bl).raw("rows", rows).raw("cols", cols));
+  // the System line: bins, rows (bin-major) and columns (voxel-major; TLC checks that both describe the same matrix)
+  m.sysjson = vh::xm_system_json(m.id, s.t, *m.data);
   return m;
 }
 
@@ -197,7 +174,8 @@ static Inst make_inst(const Sys& s, const Matrix& m, vh::Rng& rng, const Opts& o
   const int nv = (int)s.vox.size(), nb = (int)s.bins.size();
   const bool p2 = o.family != 0;
   for (int v = 0; v < nv; ++v) {
-    in.lam.push_back(p2 ? (o.family == 2 ? (1 << rng.range(0, 1)) : rng.range(1, 2)) : rng.range(1, 4));
+    // "any non-negative image": the general family has voxels with value 0 (a bin with mean 0 then has no counts)
+    in.lam.push_back(p2 ? (o.family == 2 ? (1 << rng.range(0, 1)) : rng.range(1, 2)) : rng.range(0, 4));
     in.x.push_back(rng.range(0, 3));
   }
   for (int b = 0; b < nb; ++b) {
@@ -448,9 +426,13 @@ static void run(vh::Trace& tr, const Sys& s, const Matrix& m, const Inst& in, co
   }
   of.set_recompute_sensitivity(!o.supplied);
 
+  Opts cur = o;
+  // one set_up + request sequence; reuse = the same object is set up again after some options were changed
+  auto life = [&](const Opts& o, bool reuse) -> bool {
   // the prior's own answers (its share is what the penalised quantities must differ by; the prior itself is C09's subject)
   emit_system(tr, m);
   vh::Json ji("Instance");
+  ji.boolean("reuse", reuse);
   ji.num("sys", m.id).boolean("tof", s.tof).boolean("tofSensAsked", o.tofsens).boolean("tofNorm", o.tofnorm).boolean("additive", o.additive)
       .str("norm", norm_names[o.norm]).boolean("wrapNorm", o.wrapnorm).boolean("zero", o.zero).num("maxSegAsked", o.maxseg).boolean("uss", o.uss)
       .num("N", o.N).boolean("prior", o.prior).boolean("supplied", o.supplied).boolean("cache", o.cache).num("fill", o.fill).num("family", o.family).boolean("approx", o.approx)
@@ -486,12 +468,27 @@ static void run(vh::Trace& tr, const Sys& s, const Matrix& m, const Inst& in, co
   if (err) js.str("msg", msg.substr(0, 120));
   norm_uses(js, rec);
   tr.emit(js);
-  if (err || !ok) return;
+  if (err || !ok) return false;
 
   std::vector<Req> reqs;
   if (fixed_reqs) reqs = *fixed_reqs;
   else reqs = all_requests(o, rng, !o.supplied, o.approx);
   for (const Req& q : reqs) do_request(tr, s, of, rec, q, *lam, *x, rng);
+  return true;
+  };
+  if (!life(cur, false)) return;
+  // every third object (random option sets only): change options through the setters and set the SAME object up again
+  if (!fixed_reqs && !o.supplied && !write_sens && rng.range(0, 2) == 0) {
+    cur.zero = rng.coin();
+    cur.maxseg = rng.range(0, 2);
+    cur.N = rng.range(1, 4);
+    cur.uss = cur.N == 3 ? true : rng.coin();
+    of.set_zero_seg0_end_planes(cur.zero);
+    of.set_max_segment_num_to_process(cur.maxseg);
+    of.set_use_subset_sensitivities(cur.uss);
+    of.set_num_subsets(cur.N);
+    life(cur, true);
+  }
 }
 
 static Opts random_opts(const Sys& s, vh::Rng& rng, long i) {
